@@ -158,7 +158,7 @@ def run(ck):
     ck.floor("3", "wrapper call sites of the user FnOnce", n3, 1)
 
     # ---- clause 4: after the events, only on Ok --------------------------------------------------------------
-    for q in ("EventLoop::dispatch",) + (("EventLoop::block_on",) if ck.has("block_on") else ()):
+    for q in ("EventLoop::dispatch", "EventLoop::run") + (("EventLoop::block_on",) if ck.has("block_on") else ()):
         b = ck.opt_body(q)
         if b is None:
             ck.anchor_missing("4", "T3-must-precede", q)
@@ -212,3 +212,10 @@ def run(ck):
                             want.add(e["d"])
             ok = any(T.reachable_only_via(od, cs.bb, [e for v in want for e in T.discr_edges(od, s, v)]) for s in sw)
             ck.verdict(ok, "5", "T4-guarded-by", od, "runs-only-if-slot-is-Some", "a cancelled (emptied) slot runs nothing", "dispatch runs without testing the slot", site=od.where(cs.bb))
+    # ---- shared clauses demonstrated by seeding round 7 (the property broken from a distant module) --------------
+    from props import common as _c7
+    import importlib as _il
+    _m = lambda n: _il.import_module('props.' + n)
+    _c7.import_results(ck, _m("C02"), "2", "Poll::poll", "4")  # expired timers belong to the dispatch that collected them (idles run after them)
+    _c7.ping_infra(ck, "4")  # a ping abandoned with a failing batch is reported again (level-triggered)
+
